@@ -21,10 +21,11 @@ const (
 	opRestart
 	opCrash
 	opNewProc
+	opBurst
 	opKinds
 )
 
-var opNames = [...]string{"encrypt", "decrypt", "open", "close-session", "advance", "revoke", "foreign-rotate", "restart", "crash", "new-proc"}
+var opNames = [...]string{"encrypt", "decrypt", "open", "close-session", "advance", "revoke", "foreign-rotate", "restart", "crash", "new-proc", "concurrent-burst"}
 
 // hist drives a sequential history of operations over a world.
 type hist struct {
@@ -232,11 +233,73 @@ func (h *hist) step() {
 		if len(h.liveProcs()) < h.maxProc {
 			h.newProc()
 		}
+	case opBurst:
+		h.burst()
 	}
 	w.Drain()
 	if h.hooks.afterOp != nil {
 		h.hooks.afterOp(k)
 	}
+}
+
+// burst: two to four request handlers of one process encrypt at the same moment while metastore and
+// KMS calls are slow (the clock moves inside the calls), on one partition (shared session, session
+// cache or shared IK cache) or on several (shared SK cache). Every result goes through the same
+// per-operation oracle as the sequential operations.
+func (h *hist) burst() {
+	w, t := h.w, h.t
+	lp := h.liveProcs()
+	if len(lp) == 0 {
+		return
+	}
+	p := lp[t.Choose(len(lp), "burst.proc")]
+	n := 2 + t.Choose(3, "burst.tasks")
+	per := 1 + t.Choose(3, "burst.per")
+	samePart := t.Choose(2, "burst.same-partition") == 1
+	sameSess := samePart && t.Choose(2, "burst.same-session") == 1
+	var sess []*world.Sess
+	for i := 0; i < n; i++ {
+		part := h.parts[i%len(h.parts)]
+		if samePart {
+			part = h.parts[0]
+		}
+		if sameSess && i > 0 {
+			sess = append(sess, sess[0])
+			continue
+		}
+		se, err := w.Open(p, part)
+		if err != nil {
+			return
+		}
+		sess = append(sess, se)
+	}
+	// slow calls for the duration of the burst
+	savedRandom, savedLat, savedMenu := w.Faults.Random, w.Faults.Kinds["latency"], w.LatencyMenu
+	savedNum, savedDen := w.Faults.RateNum, w.Faults.RateDen
+	if !w.Faults.Random {
+		w.Faults.RateNum, w.Faults.RateDen = 1, 3
+	}
+	w.Faults.Random = true
+	w.Faults.Kinds["latency"] = true
+	w.LatencyMenu = []time.Duration{time.Millisecond, 400 * time.Millisecond, time.Second, 2 * time.Second}
+	h.note("burst: %d handlers x %d encrypts on p%d (same partition %v, same session %v)", n, per, p.ID, samePart, sameSess)
+	var tasks []*simrt.Task
+	for i := 0; i < n; i++ {
+		se := sess[i]
+		tasks = append(tasks, w.S.Go("burst", func() {
+			for k := 0; k < per && !w.S.Ending() && len(w.Viols) == 0; k++ {
+				rec, op := w.Encrypt(se, w.Payload(2))
+				if h.hooks.afterEncrypt != nil {
+					h.hooks.afterEncrypt(se, rec, op)
+				}
+			}
+		}))
+	}
+	for _, tk := range tasks {
+		w.S.Join(tk)
+	}
+	w.Faults.Random, w.Faults.Kinds["latency"], w.LatencyMenu = savedRandom, savedLat, savedMenu
+	w.Faults.RateNum, w.Faults.RateDen = savedNum, savedDen
 }
 
 // revokeSome flags a key as revoked in the store: latest IK of a partition, latest SK, or an older key.
